@@ -7,6 +7,10 @@ package util
 //@ ghost func distinctKinds(o KindSortOrder) bool = forall i, j int :: 0 <= i && i < j && j < len(o) ==> o[i] != o[j]
 //@ ghost func knownKind(o KindSortOrder, k string) bool = exists j int :: 0 <= j && j < len(o) && o[j] == k
 
+// kindBefore(a, b, o): kind a is ordered strictly before kind b by table o — both known: by table
+// position; known before unknown; both unknown: alphabetically
+//@ ghost func kindBefore(a string, b string, o KindSortOrder) bool = (exists i, j int :: 0 <= i && i < j && j < len(o) && o[i] == a && o[j] == b) || (knownKind(o, a) && !knownKind(o, b)) || (!knownKind(o, a) && !knownKind(o, b) && a < b)
+
 //@ func lessByKind
 //@   props C08
 //@   requires distinctKinds(o)
@@ -14,6 +18,7 @@ package util
 //@   ensures [unknown-last] !knownKind(o, kindA) && knownKind(o, kindB) ==> !result
 //@   ensures [known-first] knownKind(o, kindA) && !knownKind(o, kindB) ==> result
 //@   ensures [unknown-alpha] !knownKind(o, kindA) && !knownKind(o, kindB) ==> (result <==> kindA < kindB)
+//@   ensures [as-a-function-of-the-kinds] result == kindBefore(kindA, kindB, o)
 //@   loop 1 invariant [dom] forall k string :: has(ordering, k) ==> 0 <= ordering[k] && ordering[k] < #iter && o[ordering[k]] == k
 //@   loop 1 invariant [cover] forall j int :: 0 <= j && j < #iter ==> has(ordering, o[j])
 //@   loop 1 invariant [nonnil] ordering != nil
@@ -67,8 +72,16 @@ package util
 
 //@ func SortManifests
 //@   props C05 C08
+//@   requires distinctKinds(ordering)
 //@   marks forall l []*rspb.Hook, i int :: !fresh(l) ==> l[i] == old(l[i])
-//@   marks forall j int :: 0 <= j && j < len(result1) ==> result1[j].Head != nil
+//@   ensures [heads-parsed] forall j int :: 0 <= j && j < len(result1) ==> result1[j].Head != nil
+//@   ensures [manifests-ordered-by-kind] result2 == nil ==> (forall a, b int :: 0 <= a && a < b && b < len(result1) ==> !kindBefore(result1[b].Head.Kind, result1[a].Head.Kind, ordering))
+//@   ensures [hooks-ordered-by-kind] result2 == nil ==> (forall a, b int :: 0 <= a && a < b && b < len(result0) ==> result0[a] != nil && result0[b] != nil && !kindBefore(result0[b].Kind, result0[a].Kind, ordering))
+//@   loop 1 invariant [order-table-untouched] distinctKinds(ordering) && result != nil && len(result.generic) == 0 && len(result.hooks) == 0
+//@   loop 1 invariant [paths-in-a-new-list] len(sortedFilePaths) == 0 || fresh(sortedFilePaths)
+//@   loop 2 invariant [collected-manifests-have-heads] forall q int :: 0 <= q && q < len(result.generic) ==> result.generic[q].Head != nil
+//@   loop 2 invariant [collected-hooks-exist] forall q int :: 0 <= q && q < len(result.hooks) ==> result.hooks[q] != nil
+//@   loop 2 invariant [order-table-untouched] distinctKinds(ordering)
 //@   loop 2 invariant [files-in-path-order] forall a, b int :: 0 <= a && a < b && b < len(#range) ==> #range[a] <= #range[b]
 //@   loop 2 invariant [result] result != nil
 
@@ -128,3 +141,40 @@ package util
 //@   loop 3 invariant [one-place-per-document] len(result.hooks) + len(result.generic) <= old(len(result.hooks)) + old(len(result.generic)) + #iter$2
 //@   loop 3 invariant [other-string-lists-untouched] forall l []string, i int :: !fresh(l) ==> l[i] == old(l[i])
 //@   loop 3 invariant [frame] result != nil && file.entries == old(file.entries) && file.entries != nil && (forall k string :: has(file.entries, k) == old(has(file.entries, k)) && file.entries[k] == old(file.entries[k]))
+
+
+// ---- C08: the kind sorters order manifests and hooks by kindBefore (the fixed table order, unknown
+// kinds last and alphabetical); the sort is stable (assumed contract of sort.SliceStable), the lists
+// keep their length
+
+//@ func sortManifestsByKind$1
+//@   props C08
+//@   requires distinctKinds(ordering) && 0 <= i && i < len(manifests) && 0 <= j && j < len(manifests) && manifests[i].Head != nil && manifests[j].Head != nil
+//@   ensures result == kindBefore(manifests[i].Head.Kind, manifests[j].Head.Kind, ordering)
+
+//@ func sortManifestsByKind
+//@   props C08
+//@   requires distinctKinds(ordering) && (forall j int :: 0 <= j && j < len(manifests) ==> manifests[j].Head != nil)
+//@   ensures [ordered-by-kind] forall a, b int :: 0 <= a && a < b && b < len(result) ==> !kindBefore(result[b].Head.Kind, result[a].Head.Kind, ordering)
+//@   ensures [same-list] len(result) == len(manifests)
+//@   ensures [heads-kept] forall j int :: 0 <= j && j < len(result) ==> result[j].Head != nil
+//@   ensures [from-the-list] forall a int :: 0 <= a && a < len(result) ==> 0 <= GsortOrigin[a] && GsortOrigin[a] < len(manifests)
+//@   ensures [same-manifests] forall a, k int :: 0 <= a && a < len(result) && k == GsortOrigin[a] ==> result[a] == old(manifests[k])
+//@   ensures [none-twice] forall a, b int :: 0 <= a && a < b && b < len(result) ==> GsortOrigin[a] != GsortOrigin[b]
+//@   ensures [original-order-within-a-kind] forall a, b int :: 0 <= a && a < b && b < len(result) && !kindBefore(result[a].Head.Kind, result[b].Head.Kind, ordering) ==> GsortOrigin[a] < GsortOrigin[b]
+
+//@ func sortHooksByKind$1
+//@   props C08
+//@   requires distinctKinds(ordering) && 0 <= i && i < len(h) && 0 <= j && j < len(h) && h[i] != nil && h[j] != nil
+//@   ensures result == kindBefore(h[i].Kind, h[j].Kind, ordering)
+
+//@ func sortHooksByKind
+//@   props C08
+//@   requires distinctKinds(ordering) && (forall j int :: 0 <= j && j < len(hooks) ==> hooks[j] != nil)
+//@   ensures [ordered-by-kind] forall a, b int :: 0 <= a && a < b && b < len(result) ==> !kindBefore(result[b].Kind, result[a].Kind, ordering)
+//@   ensures [same-list] len(result) == len(hooks)
+//@   ensures [hooks-kept] forall j int :: 0 <= j && j < len(result) ==> result[j] != nil
+//@   ensures [from-the-list] forall a int :: 0 <= a && a < len(result) ==> 0 <= GsortOrigin[a] && GsortOrigin[a] < len(hooks)
+//@   ensures [same-hooks] forall a, k int :: 0 <= a && a < len(result) && k == GsortOrigin[a] ==> result[a] == old(hooks[k])
+//@   ensures [none-twice] forall a, b int :: 0 <= a && a < b && b < len(result) ==> GsortOrigin[a] != GsortOrigin[b]
+//@   ensures [original-order-within-a-kind] forall a, b int :: 0 <= a && a < b && b < len(result) && !kindBefore(result[a].Kind, result[b].Kind, ordering) ==> GsortOrigin[a] < GsortOrigin[b]
